@@ -26,7 +26,11 @@ func (q *syntaxBasicCompareQuery) compute(
 	// leftFound == false && rightFound == false
 	if leftFound == rightFound {
 		if _, ok := q.comparator.(*syntaxCompareDeepEQ); ok {
-			return currentList
+			// Every member matches. The logical operators write their verdicts into
+			// the list they receive, so the caller's own array must not be handed out.
+			matchedList := make([]interface{}, len(currentList))
+			copy(matchedList, currentList)
+			return matchedList
 		}
 	}
 
